@@ -65,3 +65,10 @@ From Turn Require Import Common RelayCheck RelayProps RelayTrace.
 Theorem C02_predicate_holds_on_every_model_trace : forall cfg ep h, chk_C02_gate (model_case cfg ep h) = true.
 Proof. exact chk_C02_gate_model. Qed.
 Print Assumptions C02_predicate_holds_on_every_model_trace.
+
+(* C02 in full on every model trace (chk_C02 = gate && chk_C06 && chk_C07) *)
+From Turn Require Import RelayTime RelayTime7 RelayTrace2.
+Theorem C02_full_predicate_holds_on_every_model_trace : forall cfg ep h,
+  cfg_seconds cfg -> cfg_positive cfg -> chk_C02 (model_case cfg ep h) = true.
+Proof. exact chk_C02_full_model. Qed.
+Print Assumptions C02_full_predicate_holds_on_every_model_trace.
